@@ -19,15 +19,23 @@ static inline size_t slot_width(int type, int tlen) {
 }
 
 // exact-size heap buffer (ASan red zones on both sides), never NULL
+// 64-byte aligned so that alignment-dependent code paths (and therefore tick counts and preemption points) are the
+// same in every process; the block is exactly `bytes` long, so ASan's red zone starts right behind the last byte.
 struct Buf {
-    std::unique_ptr<uint8_t[]> p; size_t n;
-    explicit Buf(size_t bytes, uint8_t fill = 0xCD) : p(new uint8_t[bytes ? bytes : 1]), n(bytes) { memset(p.get(), fill, bytes ? bytes : 1); }
-    uint8_t* get() { return p.get(); }
+    uint8_t* p = nullptr; size_t n;
+    explicit Buf(size_t bytes, uint8_t fill = 0xCD) : n(bytes) {
+        void* q = nullptr;
+        if (posix_memalign(&q, 64, bytes ? bytes : 1) != 0 || !q) sim::harness_bug("harness allocation failed");
+        p = (uint8_t*)q; memset(p, fill, bytes ? bytes : 1);
+    }
+    Buf(const Buf&) = delete; Buf& operator=(const Buf&) = delete;
+    ~Buf() { free(p); }
+    uint8_t* get() { return p; }
 };
 
 // pack model values [v0,v1) of a column into a carquet input buffer; keeps backing storage for byte arrays alive
 struct Packed {
-    Buf buf; std::vector<std::unique_ptr<uint8_t[]>> backing;
+    Buf buf; std::vector<std::unique_ptr<Buf>> backing;
     Packed(size_t n) : buf(n) {}
 };
 static inline std::unique_ptr<Packed> pack_values(const Col& c, const std::vector<std::string>& vals, size_t v0, size_t v1) {
@@ -38,9 +46,9 @@ static inline std::unique_ptr<Packed> pack_values(const Col& c, const std::vecto
         const std::string& v = vals[v0 + i];
         if (c.type == T_BA) {
             carquet_byte_array_t ba;
-            std::unique_ptr<uint8_t[]> b(new uint8_t[v.size() ? v.size() : 1]);
-            memcpy(b.get(), v.data(), v.size());
-            ba.data = b.get(); ba.length = (int32_t)v.size();
+            auto b = std::make_unique<Buf>(v.size());
+            memcpy(b->get(), v.data(), v.size());
+            ba.data = b->get(); ba.length = (int32_t)v.size();
             pk->backing.push_back(std::move(b));
             memcpy(out + i * w, &ba, sizeof ba);
         } else memcpy(out + i * w, v.data(), w);
